@@ -896,8 +896,12 @@ impl Storage {
 
                 self.db
                     .iterator(mode)
-                    .take_while(|(key, _value)| {
-                        key.starts_with(&key_prefix)
+                    .take_while(|(key, _value)| key.starts_with(&key_prefix))
+                    // The prefix also matches the history of scripts whose args merely start
+                    // with this script's args; their keys are longer and must not be parsed
+                    // with this script's offsets.
+                    .filter(|(key, _value)| {
+                        key.len() == key_prefix_len + 17
                             && BlockNumber::from_be_bytes(
                                 key[key_prefix_len..key_prefix_len + 8]
                                     .try_into()
